@@ -26,7 +26,13 @@ WS = {
 WS_LIVE = {
     "w4": ["clean.lua", "dir/broken.lua", "dir/warn.lua", "top.lua"],
 }
-ALL_WS = dict(WS, **WS_LIVE)
+# leg c17.filter only: annotation type names defined in several files (Trio: dupa / dupb / dupc.lua, Pair: dupc.lua /
+# mid/pair.lua), i.e. one cross-file "duplicate annotate type" warning (type 18) per defining file; for per-file silencing
+# rules that name one defining file (the others keep their warning).  Not in WS: c17.sites has no pattern table for it
+WS_DUP = {
+    "w5": ["dupa.lua", "dupb.lua", "dupc.lua", "mid/pair.lua", "solo.lua"],
+}
+ALL_WS = dict(WS, **WS_LIVE, **WS_DUP)
 NTEXTS = 6                                           # probe texts of harness/legs_c17.go c17LiveTexts
 NFLAGS = 26
 SPECIAL = [2, 3, 10, 11, 12]
@@ -267,28 +273,107 @@ def gen_filter(rng, tier):
             out.append(case(ws, rand_root(rng, 0), jsoncfg(1, [], list(range(22, 30))), client(ALL_ON), []))
     fixed = len(out)
     while len(out) < n + fixed:
-        ws = rng.choice(wss)
-        root = rand_root(rng)
-        m = rng.random()
-        if m < 0.30:                                 # initializationOptions
-            out.append(case(ws, root, None, rand_client(rng, ws, local=0.08), []))
-        elif m < 0.55:                               # later settings change(s); first notification = start-up sync
-            c0 = rand_client(rng, ws, 0.0, local=0.08)
-            sync = c0[:-2] if c0.endswith(";L") else c0
-            chs = [sync] + [rand_client(rng, ws, 0.02) for _ in range(rng.choice([1, 1, 2, 3]))]
-            out.append(case(ws, root, None, c0, chs))
-        elif m < 0.70:                               # the same intent by all three routes (three cases)
-            f = rand_flags(rng); ih = rand_site_patterns(rng, ws, 0.3); ie = rand_patterns(rng, ws, False, 0.4)
-            c = client(f, ih, ie)
-            c0 = rand_client(rng, ws, 0.0)
-            out.append(case(ws, root, None, c, []))
-            out.append(case(ws, rand_root(rng), None, c0, [c0, c]))
-            out.append(case(ws, rand_root(rng), to_json_of(f, ih, ie), rand_client(rng, ws, 0.0), []))
-        elif m < 0.95:                               # luahelper.json
-            out.append(case(ws, root, rand_json(rng, ws), rand_client(rng, ws, 0.1, local=0.08), []))
-        else:                                        # luahelper.json + later client changes (ignored)
-            out.append(case(ws, root, rand_json(rng, ws, 0.0), rand_client(rng, ws, 0.0),
-                            [rand_client(rng, ws, 0.3) for _ in range(2)]))
+        out.extend(rand_filter_cases(rng, rng.choice(wss)))
+    # the workspace with annotation types defined in several files, on top of the n cases above (their random stream
+    # is not touched)
+    out.extend(gen_dup(rng, tier))
+    return out
+
+
+def rand_filter_cases(rng, ws):
+    """one random configuration for workspace ws by a random route (1 or 3 cases)"""
+    out = []
+    root = rand_root(rng)
+    m = rng.random()
+    if m < 0.30:                                     # initializationOptions
+        out.append(case(ws, root, None, rand_client(rng, ws, local=0.08), []))
+    elif m < 0.55:                                   # later settings change(s); first notification = start-up sync
+        c0 = rand_client(rng, ws, 0.0, local=0.08)
+        sync = c0[:-2] if c0.endswith(";L") else c0
+        chs = [sync] + [rand_client(rng, ws, 0.02) for _ in range(rng.choice([1, 1, 2, 3]))]
+        out.append(case(ws, root, None, c0, chs))
+    elif m < 0.70:                                   # the same intent by all three routes (three cases)
+        f = rand_flags(rng); ih = rand_site_patterns(rng, ws, 0.3); ie = rand_patterns(rng, ws, False, 0.4)
+        c = client(f, ih, ie)
+        c0 = rand_client(rng, ws, 0.0)
+        out.append(case(ws, root, None, c, []))
+        out.append(case(ws, rand_root(rng), None, c0, [c0, c]))
+        out.append(case(ws, rand_root(rng), to_json_of(f, ih, ie), rand_client(rng, ws, 0.0), []))
+    elif m < 0.95:                                   # luahelper.json
+        out.append(case(ws, root, rand_json(rng, ws), rand_client(rng, ws, 0.1, local=0.08), []))
+    else:                                            # luahelper.json + later client changes (ignored)
+        out.append(case(ws, root, rand_json(rng, ws, 0.0), rand_client(rng, ws, 0.0),
+                        [rand_client(rng, ws, 0.3) for _ in range(2)]))
+    return out
+
+
+# ---- per-file silencing rules against diagnostics that several files get for one shared cause (workspace w5) ----
+
+ANNOTATE = 18                                        # CheckErrorAnnotate: "duplicate annotate type: X", one per defining file
+# rules that silence one / some of the defining files (IsIgnoreErrorFile matches the absolute name: literal substring or
+# regexp), next to ones that name a non-defining file or nothing at all
+DUP_PATTERNS = ["dupa.lua", "dupb.lua", "dupc.lua", "mid/pair.lua", "solo.lua", "mid/", "dupa", "dupb", "dupc", "pair",
+                "dupa\\.lua$", "dupb\\.lua$", "dupc\\.lua$", "/dup[ab]\\.lua", "/dup[bc]\\.lua", "dup[ac]", "dup.\\.lua",
+                "^/tmp/.*/dupb", "(dupa|pair)\\.lua", "(solo|dupb)", "mid/.*lua$", "dupd.lua", "^dupa", "dup"]
+
+
+def dup_rule_cases(rng, ws, ie, ft, flags=ALL_ON):
+    """the per-file rules `ie` (silence every type) / `ft` (silence the listed types) by each route that can carry them"""
+    on = client(ALL_ON)
+    out = []
+    if not ft:
+        c = client(flags, [], ie)
+        out.append(case(ws, rand_root(rng, 0), None, c, []))                               # initializationOptions
+        out.append(case(ws, rand_root(rng, 0), None, on, [on, c]))                         # later settings change
+        out.append(case(ws, rand_root(rng, 0), to_json_of(flags, [], ie), on, []))         # luahelper.json IgnoreFileErr
+    else:
+        js = to_json_of(flags, [], ie).split(";")
+        js[5] = ",".join("%s=%s" % (hx(k), ints(v)) for k, v in ft)
+        out.append(case(ws, rand_root(rng, 0), ";".join(js), on, []))                      # luahelper.json IgnoreFileErrTypes
+    return out
+
+
+def gen_dup(rng, tier):
+    n = {"quick": 300, "thorough": 6000, "search": 300}[tier]
+    out = []
+    for ws in sorted(WS_DUP):
+        files = ALL_WS[ws]
+        if tier != "search":
+            # every file of the workspace alone (first / middle / last defining file, a non-defining one), spelt
+            # literally and as a regexp: silenced altogether, for type 18 only, for type 18 among others, for other types
+            out.append(case(ws, rand_root(rng, 0), None, client(ALL_ON), []))
+            for f in files:
+                for p in (f, "/" + f.replace(".", "\\.") + "$"):
+                    out.extend(dup_rule_cases(rng, ws, [p], []))
+                    out.extend(dup_rule_cases(rng, ws, [], [(p, [ANNOTATE])]))
+                    out.extend(dup_rule_cases(rng, ws, [], [(p, [5, ANNOTATE, 19])]))
+                    out.extend(dup_rule_cases(rng, ws, [], [(p, [4, 5, 9])]))
+            for a, b in ((0, 1), (0, 2), (1, 2), (2, 3), (0, 3)):      # two files named, by one rule list / by both
+                out.extend(dup_rule_cases(rng, ws, [files[a], files[b]], []))
+                out.extend(dup_rule_cases(rng, ws, [files[a]], [(files[b], [ANNOTATE])]))
+        fixed = len(out)
+        while len(out) < n + fixed:
+            m = rng.random()
+            if m < 0.5:                              # the general generator on this workspace
+                out.extend(rand_filter_cases(rng, ws))
+                continue
+            flags = list(ALL_ON)
+            if rng.random() < 0.4:
+                flags = rand_flags(rng)
+                if rng.random() < 0.7:
+                    flags[0] = flags[ANNOTATE] = True
+            pick = lambda: rng.choice(files) if rng.random() < 0.4 else rng.choice(DUP_PATTERNS)
+            ie = [pick() for _ in range(rng.choice([0, 1, 1, 1, 2]))]
+            ft = []
+            if m < 0.8:
+                for _ in range(rng.choice([1, 1, 2, 3])):
+                    t = rand_types(rng)
+                    if rng.random() < 0.6 and ANNOTATE not in t:
+                        t = sorted(t + [ANNOTATE])
+                    ft.append((pick(), t))
+            if not ie and not ft:
+                ie = [pick()]
+            out.extend(dup_rule_cases(rng, ws, ie, ft, flags))
     return out
 
 
